@@ -77,7 +77,7 @@ def edits_for(attr, default, dom):
 
 INTS = {"minKeySize": [512, 513, 1023, 2048, 16384, 511, 16385, 0], "maxKeySize": [512, 1024, 8193, 16384, 511, 16385, 100000],
         "ticketLifetime": [1, 2, 3600, 604800, 0, 604801], "ticket_count": [0, 1, 2, 65535, 65536],
-        "record_size_limit": [64, 65, 16384, 16385, 63, 16386, 0]}
+        "record_size_limit": [64, 65, 16384, 16385, 63, 16386, 0, 1, -1, "none"]}
 BOOLS = ["useEncryptThenMAC", "useExtendedMasterSecret", "requireExtendedMasterSecret", "usePaddingExtension",
          "use_heartbeat_extension"]
 
@@ -150,7 +150,7 @@ def run_case(edits):
         elif isinstance(v, list):
             v = list(v)
             shared[e["attr"]] = v
-        elif e["attr"] == "record_size_limit" and v == 0:
+        elif e["attr"] == "record_size_limit" and v == "none":
             v = None
         setattr(hs, e["attr"], v)
     before = snapshot(hs)
@@ -190,8 +190,10 @@ def run_case(edits):
     # record_size_limit None is encoded as 0 in the edit; it is valid
     ev_edits = [dict(e) for e in edits]
     for e in ev_edits:
-        if e["attr"] == "record_size_limit" and e["v"] == 0:
-            e["v"] = 64
+        if e["attr"] == "record_size_limit" and e["v"] == "none":
+            e["v"] = 64          # None (= do not negotiate) is a valid setting
+        if e["attr"] == "record_size_limit" and e["v"] == -1:
+            e["v"] = 0           # (TLC's JSON reader has naturals only) out of range like 0
     return {"ev": "CASE", "edits": ev_edits, "outcome": outcome, "pure": pure, "idem": idem, "supported": supported, "why": why}
 
 
